@@ -47,6 +47,24 @@ def mkdomain(name, neg, **kw):
     return cd
 
 
+_PLATFORMS = {}
+
+
+def make_platform(name):
+    """An offline instance of a vendor platform whose get_ff_sync replaces FFSynchronizer's implementation."""
+    if name not in _PLATFORMS:
+        from amaranth.vendor import XilinxPlatform
+
+        class P(XilinxPlatform):
+            device = "xc7a35t"
+            package = "csg324"
+            speed = "1"
+            resources = []
+            connectors = []
+        _PLATFORMS[name] = P()
+    return _PLATFORMS[name]
+
+
 class Dev:
     def build(self):
         from amaranth.hdl import Cat
@@ -54,7 +72,13 @@ class Dev:
         # a domain clocked on the falling edge has a clock that idles at 1 (see mkdomain); the harness speaks of
         # "the active edge" (mask bit set) and translates to levels here
         self.idle = (1 if self.icd.clk_edge == "neg" else 0) | (2 if self.ocd.clk_edge == "neg" else 0)
-        self.sim = Simulator(self.m)
+        platform = getattr(self, "platform", None)
+        if platform is None:
+            self.sim = Simulator(self.m)
+        else:
+            # elaborated for a platform that overrides the synchroniser (get_ff_sync), then simulated
+            from amaranth.hdl import Fragment
+            self.sim = Simulator(Fragment.get(self.m, make_platform(platform)))
         self.clkcat = Cat(self.icd.clk, self.ocd.clk)
         sigs, mems = state_holders(self.sim)
         self.state_sigs = sigs
@@ -87,12 +111,14 @@ class Dev:
 class FFSyncDev(Dev):
     """din --(idom register)--> i --FFSynchronizer--> o"""
 
-    def __init__(self, width, signed, stages, init, reset_less, neg=(False, False)):
+    def __init__(self, width, signed, stages, init, reset_less, neg=(False, False), oshape=None, platform=None):
         from amaranth.hdl import Module, Signal, ClockDomain, Shape
         from amaranth.lib.cdc import FFSynchronizer
+        oshape = tuple(oshape) if oshape is not None else (width, signed)      # the output may be wider / narrower
         self.cfg = dict(kind="FFSynchronizer", width=width, signed=signed, stages=stages, init=init, reset_less=reset_less,
-                        negedge=list(neg))
+                        negedge=list(neg), oshape=list(oshape), platform=platform)
         self.width, self.signed, self.stages = width, signed, stages
+        self.oshape, self.platform = oshape, platform
         m = Module()
         self.icd = mkdomain("idom", neg[0], reset_less=True)
         self.ocd = mkdomain("odom", neg[1])
@@ -101,7 +127,7 @@ class FFSyncDev(Dev):
         sh = Shape(width, signed)
         self.din = Signal(sh)
         self.i = Signal(sh)
-        self.o = Signal(sh)
+        self.o = Signal(Shape(*oshape))
         m.d.idom += self.i.eq(self.din)
         m.submodules.dut = FFSynchronizer(self.i, self.o, o_domain="odom", init=init, reset_less=reset_less, stages=stages)
         self.m = m
@@ -139,8 +165,9 @@ class FFSyncDev(Dev):
 
     def check(self, ctx, st):
         got = ctx.get(self.o)
-        if got != st[-1]:
-            raise Viol("ffsync-output-latency", output=got, expected=st[-1], model=list(st))
+        exp = norm(st[-1], *self.oshape)       # (the last stage, in the input's shape, assigned to the output)
+        if got != exp:
+            raise Viol("ffsync-output-latency", output=got, expected=exp, model=list(st))
 
     def letters(self, st, rng=None):
         vals = [0, norm(-1, self.width, self.signed)] if rng is None else [rng.choice(corner_values(self.width, self.signed, rng, 2))]
@@ -221,17 +248,30 @@ class AsyncFFDev(Dev):
 
 
 class PulseDev(Dev):
-    def __init__(self, stages, neg=(False, False)):
-        from amaranth.hdl import Module, Signal, ClockDomain
+    def __init__(self, stages, neg=(False, False), platform=None, rename=None):
+        from amaranth.hdl import Module, Signal, ClockDomain, DomainRenamer
         from amaranth.lib.cdc import PulseSynchronizer
-        self.cfg = dict(kind="PulseSynchronizer", stages=stages, negedge=list(neg))
+        self.platform = platform
+        self.collapsed = rename in ("collapsed", "collapsed-nested")      # both sides on the output clock
+        self.cfg = dict(kind="PulseSynchronizer", stages=stages, negedge=list(neg), platform=platform, rename=rename)
         self.stages = stages
         m = Module()
         self.icd = mkdomain("idom", neg[0], reset_less=True)
         self.ocd = mkdomain("odom", neg[1], reset_less=True)
         m.domains.idom = self.icd
         m.domains.odom = self.ocd
-        ps = m.submodules.dut = PulseSynchronizer("idom", "odom", stages=stages)
+        if rename is None:
+            ps = m.submodules.dut = PulseSynchronizer("idom", "odom", stages=stages)
+        else:
+            # the primitive is written for domains "wr"/"rd" and moved by DomainRenamer: onto the two clocks, or
+            # both sides onto one clock (then every edge is a coincident edge of both sides)
+            ps = PulseSynchronizer("wr", "rd", stages=stages)
+            m.submodules.dut = {
+                "plain": lambda: DomainRenamer({"wr": "idom", "rd": "odom"})(ps),
+                "plain-reordered": lambda: DomainRenamer({"rd": "odom", "wr": "idom"})(ps),
+                "collapsed": lambda: DomainRenamer({"wr": "odom", "rd": "odom"})(ps),
+                "collapsed-nested": lambda: DomainRenamer({"rd": "odom"})(DomainRenamer({"wr": "rd"})(ps)),
+            }[rename]()
         self.i, self.o = ps.i, ps.o
         self.m = m
 
@@ -350,7 +390,7 @@ def run_pulse(dev, rng, nevents, out):
                     ctx.set(dev.i, i)
                     trace.append(["in", i])
                     continue
-                if x < 0.4:
+                if x < 0.4 or dev.collapsed:
                     mask = 3
                 else:
                     mask = 1 if rng.random() * (ratio[0] + ratio[1]) < ratio[0] else 2
@@ -437,12 +477,21 @@ def random_dev(rng):
         width = rng.choice([0, 1, 1, 2, 3, 4, 5, 8])
         signed = width > 0 and rng.random() < 0.3
         init = rng.choice(corner_values(width, signed, rng, 1))
-        return FFSyncDev(width, signed, stages, init, rng.random() < 0.7, neg=neg)
+        oshape = None
+        if rng.random() < 0.4:
+            oshape = (max(0, width + rng.choice([-1, 1, 2, 4])), rng.random() < 0.5 if width else False)
+            if oshape[0] == 0:
+                oshape = (0, False)
+        return FFSyncDev(width, signed, stages, init, rng.random() < 0.7, neg=neg, oshape=oshape,
+                         platform="xilinx" if rng.random() < 0.3 else None)
     if k < 0.55:
         return AsyncFFDev("AsyncFFSynchronizer", stages, rng.choice(["pos", "neg"]), neg=neg)
     if k < 0.75:
         return AsyncFFDev("ResetSynchronizer", stages, "pos", async_domain=rng.random() < 0.4, neg=neg)
-    return PulseDev(stages, neg=neg)
+    rename = rng.choice([None, None, "plain", "plain-reordered", "collapsed", "collapsed-nested"])
+    if rename in ("collapsed", "collapsed-nested"):
+        neg = (neg[1], neg[1])
+    return PulseDev(stages, neg=neg, platform="xilinx" if rng.random() < 0.25 else None, rename=rename)
 
 
 def run_shard(spec):
@@ -469,6 +518,10 @@ def run_shard(spec):
                 dev = random_dev(rng).build()
                 kind = dev.cfg["kind"]
                 out["hist"][f"{kind}:stages={dev.cfg['stages']}"] = out["hist"].get(f"{kind}:stages={dev.cfg['stages']}", 0) + 1
+                if dev.cfg.get("rename"):
+                    out["hist"][f"{kind}:under-DomainRenamer:{dev.cfg['rename']}"] = out["hist"].get(f"{kind}:under-DomainRenamer:{dev.cfg['rename']}", 0) + 1
+                if dev.cfg.get("platform"):
+                    out["hist"][f"{kind}:platform-override:{dev.cfg['platform']}"] = out["hist"].get(f"{kind}:platform-override:{dev.cfg['platform']}", 0) + 1
                 ek = f"{kind}:clock-edges(in,out)=" + ",".join("neg" if x else "pos" for x in dev.cfg["negedge"])
                 out["hist"][ek] = out["hist"].get(ek, 0) + 1
                 if isinstance(dev, PulseDev):
@@ -510,7 +563,8 @@ def replay(rec):
     cfg = d.get("config", {})
     print(json.dumps(cfg), rec.get("mechanism"))
     if cfg.get("kind") == "FFSynchronizer":
-        dev = FFSyncDev(cfg["width"], cfg["signed"], cfg["stages"], cfg["init"], cfg["reset_less"], neg=cfg.get("negedge", (False, False))).build()
+        dev = FFSyncDev(cfg["width"], cfg["signed"], cfg["stages"], cfg["init"], cfg["reset_less"], neg=cfg.get("negedge", (False, False)),
+                        oshape=cfg.get("oshape"), platform=cfg.get("platform")).build()
     elif cfg.get("kind") in ("AsyncFFSynchronizer", "ResetSynchronizer"):
         dev = AsyncFFDev(cfg["kind"], cfg["stages"], cfg["async_edge"], cfg["async_reset_domain"], neg=cfg.get("negedge", (False, False))).build()
     else:
